@@ -66,9 +66,11 @@ Oracle calibration (weaker readings taken where the statement leaves latitude)
   * firmware: any string containing the version constant.
   * lone surrogates / non-string equipment ids are outside the catalogue.
 """
+import functools
 import itertools
 import json
 import logging
+import re
 
 from vf import core, nodes    # nodes binds get_version in frappy.protocol.discovery to a constant
 
@@ -213,30 +215,26 @@ SERVER_CFGS = [      # (interface, secondary)
 
 def bounds(tier):
     if tier == 'quick':
-        return dict(w=4, depth=2, maxlen=640, mix_eids=2)
-    return dict(w=8, depth=3, maxlen=700, mix_eids=len(EIDS))
+        return dict(w=4, depth=2, maxlen=640, mix_eids=1, mix_ifaces=['tcp', 'tcp+ws', 'port1+65535', 'four-digit'])
+    return dict(w=8, depth=3, maxlen=700, mix_eids=len(EIDS), mix_ifaces=list(IFACES))
 
 
 # ---------------------------------------------------------------------------------------------------------------
 # reference: minimal length of the SECoP node message
 
+_TWO = '"\\\b\f\n\r\t'
+_SIX = ''.join(chr(o) for o in range(0x20) if chr(o) not in _TWO)
+
+
+@functools.lru_cache(maxsize=64)
 def jlen(text):
-    """bytes of the shortest JSON string body for text (UTF-8, escapes only where JSON demands them)"""
-    n = 0
-    for ch in text:
-        o = ord(ch)
-        if ch in '"\\' or ch in '\b\f\n\r\t':
-            n += 2
-        elif o < 0x20:
-            n += 6
-        elif o < 0x80:
-            n += 1
-        elif o < 0x800:
-            n += 2
-        elif o < 0x10000:
-            n += 3
-        else:
-            n += 4
+    """bytes of the shortest JSON string body for text: UTF-8, escapes only where JSON demands them (two bytes for
+    quote, backslash, \\b \\f \\n \\r \\t; six for the other control characters)"""
+    n = len(text.encode('utf-8'))
+    for ch in _TWO:
+        n += text.count(ch)
+    for ch in _SIX:
+        n += 5 * text.count(ch)
     return n
 
 
@@ -247,14 +245,13 @@ def minlen(eid, desc, digits, firmware=FIRMWARE):
     return FRAME + digits + jlen(eid) + jlen(firmware) + jlen(desc)
 
 
+_ESCAPED = re.compile('["\\\\\x00-\x1f]')
+_NONASCII = re.compile('[^\x00-\x7f]')
+
+
+@functools.lru_cache(maxsize=64)
 def group(text):
-    gs = set()
-    for ch in text:
-        if ch in '"\\' or ord(ch) < 0x20:
-            gs.add('escaped')
-        elif ord(ch) >= 0x80:
-            gs.add('multibyte')
-    return 'escaped' if 'escaped' in gs else 'multibyte' if gs else 'ascii'
+    return 'escaped' if _ESCAPED.search(text) else 'multibyte' if _NONASCII.search(text) else 'ascii'
 
 
 EIDS = ['ex.frappy.demo'] + ['id' + CLASSES[c][0] * 3 for c in CNAMES if c != 'a']
@@ -310,10 +307,10 @@ def judge_run(part, case, eid, desc, ports, sock, exc, names, sigtag):
     must_enable = minlen(eid, '', 5) <= LIMIT
     cannot_send = minlen(eid, '', digits) > LIMIT
     must_complete = minlen(eid, desc, 5) <= LIMIT
-    idclass = 'identity-too-long' if cannot_send else 'desc-' + group(desc) if group(eid) == 'ascii' \
-        else f'id-{group(eid)}-desc-{group(desc)}'
-    what = f'equipment_id={short(eid)} description={short(desc)} tcp ports={ports} datagrams={names}'
-    nviol = len(part.violations)
+    # signature class: what kind of identity (the equipment id's characters do not change the defect class)
+    idclass = 'desc-' + group(desc) if must_enable else 'identity-too-long'
+    what = Lazy(lambda: f'equipment_id={short(eid)} description={short(desc)} tcp ports={ports} datagrams={names}')
+    nviol = sum(v[0] for v in part.violations.values())
 
     # L: the loop must not die
     if exc is not None:
@@ -384,8 +381,10 @@ def judge_run(part, case, eid, desc, ports, sock, exc, names, sigtag):
     # L: every datagram consumed (unless the responder is legitimately disabled)
     if exc is None and sock.consumed < len(names):
         if must_enable:
-            part.violation(f'C19:run:loop-ended-early:{idclass}', case,
-                           f'{what}: run() returned after {sock.consumed} of {len(names)} datagrams although the identity fits')
+            kind = 'loop-ended-early' if sock.consumed else 'responder-disabled-although-the-identity-fits'
+            part.violation(f'C19:run:{kind}:{idclass}', case,
+                           f'{what}: run() returned after {sock.consumed} of {len(names)} datagrams although the identity alone '
+                           f'needs only {minlen(eid, "", 5)} <= 508 bytes (complete message: {minlen(eid, desc, 5)})')
         outcome = 'disabled'
     elif exc is None and names and silent and cannot_send:
         outcome = 'disabled'
@@ -393,9 +392,20 @@ def judge_run(part, case, eid, desc, ports, sock, exc, names, sigtag):
         outcome = 'truncated' if truncated else 'complete'
         if silent:
             outcome += '-silent'
-    if nviol != len(part.violations):
+    if nviol != sum(v[0] for v in part.violations.values()):
         outcome += '!'
     return outcome
+
+
+class Lazy:
+    """text built only when a violation is reported"""
+    def __init__(self, fn):
+        self.fn = fn
+
+    def __format__(self, spec):
+        return self.fn()
+
+    __str__ = __format__
 
 
 def short(text):
@@ -463,15 +473,17 @@ def gen_pure(shard, b):
 
 
 def gen_mix(shard, b):
-    _, eid, c1, c2 = shard
+    _, eid, c1, c2, chunk = shard
     ch1, ch2 = CLASSES[c1][0], CLASSES[c2][0]
     j1, j2 = jlen(ch1), jlen(ch2)
     w = b['w']
-    for k in range(1, limit_len(eid, '', j1) + w + 1):
+    for k in range(1 + chunk, limit_len(eid, '', j1) + w + 1, MIX_CHUNKS):
         mid = limit_len(eid, ch1 * k, j2)
         for m in range(max(1, mid - w), max(1, mid + w) + 1):
             yield eid, ch1 * k + ch2 * m
 
+
+MIX_CHUNKS = 4      # the boundary positions k of one (equipment id, class pair) are dealt to this many shards
 
 IDENTITY_DESCS = ['', 'abc', 'é', '\x01', 'x' * 100, '\U0001f600' * 30]
 
@@ -502,8 +514,9 @@ def shard_fn(shard):
     sub = shard[0]
     if sub in ('pure', 'mix', 'identity'):
         gen = {'pure': gen_pure, 'mix': gen_mix, 'identity': gen_identity}[sub]
+        iflists = b['mix_ifaces'] if sub == 'mix' else list(IFACES)
         for eid, desc in gen(shard, b):
-            for ifname in IFACES:
+            for ifname in iflists:
                 run_listener(part, eid, desc, ifname, ('discover',), True, sub)
     elif sub == 'datagrams':
         _, ident, ifname, first = shard
@@ -518,7 +531,8 @@ def shard_fn(shard):
         uris = [interface] + secondary
         for r in range(len(uris) + 1):
             for fail in itertools.combinations(range(len(uris)), r):
-                run_server(part, interface, secondary, list(fail))
+                for reverse in (False, True):
+                    run_server(part, interface, secondary, list(fail), reverse)
     else:
         raise core.Inconclusive(f'unknown shard {shard!r}')
     return part
@@ -552,15 +566,38 @@ class FakeInterface:
         pass
 
 
-class InlineThread:
+class DeferredThreads:
+    """deterministic stand-in for threads inside frappy.server: `mkthread` only queues the thread function (Server.run
+    creates the interface threads while holding a lock they need), the queued functions run to completion, in creation
+    order (or reversed: second schedule), whenever the main thread would block: MultiEvent.wait and Thread.join"""
+    def __init__(self, reverse):
+        self.pending = []
+        self.reverse = reverse
+        self.ran = 0
+
+    def mkthread(self, func, *args, **kwds):
+        self.pending.append((func, args, kwds))
+        return self
+
+    def run_pending(self):
+        while self.pending:
+            func, args, kwds = self.pending.pop(-1 if self.reverse else 0)
+            self.ran += 1
+            func(*args, **kwds)
+
     def join(self, timeout=None):
-        pass
+        self.run_pending()
 
 
-def inline_mkthread(func, *args, **kwds):
-    """deterministic stand-in for frappy.lib.mkthread inside frappy.server: the thread function runs to completion here"""
-    func(*args, **kwds)
-    return InlineThread()
+THREADS = DeferredThreads(False)
+
+
+class CoopMultiEvent(frappy.server.MultiEvent):
+    def wait(self, timeout=None):
+        THREADS.run_pending()
+        if self.events:
+            raise core.Inconclusive(f'MultiEvent.wait would block: waiting for {self.waiting_for()}')
+        return super().wait(timeout)
 
 
 _real_get_class = frappy.server.get_class
@@ -572,8 +609,8 @@ def fake_get_class(spec):
     return _real_get_class(spec)
 
 
-def run_server(part, interface, secondary, fail):
-    global NEXT_SCRIPT          # pylint: disable=global-statement
+def run_server(part, interface, secondary, fail, reverse=False):
+    global NEXT_SCRIPT, THREADS          # pylint: disable=global-statement
     import io
     import sys
     uris = [interface] + list(secondary)
@@ -581,7 +618,7 @@ def run_server(part, interface, secondary, fail):
     failing = {norm[i] for i in fail}
     opened = [u for u in norm if u not in failing]
     ports = tcp_ports(opened)
-    case = {'kind': 'server', 'interface': interface, 'secondary': list(secondary), 'fail': list(fail)}
+    case = {'kind': 'server', 'interface': interface, 'secondary': list(secondary), 'fail': list(fail), 'reverse': reverse}
     part.evaluations += 1
     part.states += 1
     if fail:
@@ -590,8 +627,9 @@ def run_server(part, interface, secondary, fail):
     if secondary:
         node_cfg['secondary'] = list(secondary)
     node = nodes.Node({}, node_cfg=node_cfg, start=True)
-    saved = frappy.server.mkthread, frappy.server.get_class, sys.stdout
-    frappy.server.mkthread, frappy.server.get_class = inline_mkthread, fake_get_class
+    saved = frappy.server.mkthread, frappy.server.get_class, frappy.server.MultiEvent, sys.stdout
+    THREADS = DeferredThreads(reverse)
+    frappy.server.mkthread, frappy.server.get_class, frappy.server.MultiEvent = THREADS.mkthread, fake_get_class, CoopMultiEvent
     FakeInterface.FAIL = failing
     FakeInterface.STARTED = []
     NEXT_SCRIPT = [(REQUEST, addr_of(0))]
@@ -601,13 +639,15 @@ def run_server(part, interface, secondary, fail):
     try:
         node._restart = True
         node.run()                      # the real Server.run
+        THREADS.run_pending()
     except BaseException as e:          # noqa
         exc = e
     finally:
-        frappy.server.mkthread, frappy.server.get_class, sys.stdout = saved
+        frappy.server.mkthread, frappy.server.get_class, frappy.server.MultiEvent, sys.stdout = saved
         NEXT_SCRIPT = []
         node.close()
-    what = f'Server.run interface={interface!r} secondary={secondary!r} failing to start={sorted(failing)}'
+    what = (f'Server.run interface={interface!r} secondary={secondary!r} failing to start={sorted(failing)} '
+            f'threads run {"last" if reverse else "first"} created first')
     part.transitions += 1 + len(uris)
     if exc is not None:
         part.violation(f'C19:server:run-raises:{type(exc).__name__}', case, f'{what}: {exc!r}')
@@ -647,7 +687,8 @@ def run(ctx):
     if want('pure'):
         ctx.pmap(shard_fn, [('pure', eid, c) for eid in EIDS for c in CNAMES], name='pure')
     if want('mix'):
-        ctx.pmap(shard_fn, [('mix', eid, c1, c2) for eid in EIDS[:b['mix_eids']] for c1 in CNAMES for c2 in CNAMES if c1 != c2],
+        ctx.pmap(shard_fn, [('mix', eid, c1, c2, chunk) for eid in EIDS[:b['mix_eids']] for c1 in CNAMES for c2 in CNAMES if c1 != c2
+                            for chunk in range(MIX_CHUNKS)],
                  name='mix')
     if want('identity'):
         ctx.pmap(shard_fn, [('identity', c) for c in CNAMES], name='identity')
@@ -660,7 +701,7 @@ def run(ctx):
         'enumeration of the real UDPListener (constructor + run() on a scripted datagram socket): '
         f'pure = {len(EIDS)} equipment ids x 8 character classes x every description length 0..{b["maxlen"]} x 8 interface lists; '
         f'mix = {b["mix_eids"]} equipment ids x 56 ordered class pairs x every boundary position x every second-part length within '
-        f'+-{b["w"]} of the 508 byte limit x 8 interface lists; identity = 8 classes x every equipment id length around the point '
+        f'+-{b["w"]} of the 508 byte limit x {len(b["mix_ifaces"])} interface lists; identity = 8 classes x every equipment id length around the point '
         'where the identity alone reaches 508 bytes x 6 descriptions x 8 interface lists; datagrams = 6 identities x 8 interface '
         f'lists x broadcast on/off x every sequence of <= {b["depth"]} datagrams over {len(DNAMES)} kinds (+ liveness probe); '
         'server = real Server.run x 7 interface configurations x every subset of failing interfaces. '
@@ -682,7 +723,7 @@ def run(ctx):
 def replay(case):
     part = core.Part()
     if case['kind'] == 'server':
-        run_server(part, case['interface'], case['secondary'], case['fail'])
+        run_server(part, case['interface'], case['secondary'], case['fail'], case.get('reverse', False))
     else:
         run_listener(part, case['eid'], case['desc'], case['ifaces'], tuple(case['datagrams']), case['broadcast'], case['sub'])
     return part
